@@ -1,6 +1,5 @@
-//go:build verifsched
 
-package main
+package racelog
 
 import (
 	"bufio"
@@ -16,25 +15,25 @@ import (
 // raceLog reads the ThreadSanitizer report file of this process incrementally
 // (GORACE=log_path=<p> writes to <p>.<pid>) so that each report is attributed to
 // the execution during which it was printed.
-type raceLog struct {
+type Log struct {
 	path string
 	off  int64
 	repo string
 	src  map[string][]string
 }
 
-func newRaceLog(prefix string) *raceLog {
+func New(prefix string) *Log {
 	repo := os.Getenv("VERIF_REPO_DIR")
 	if repo == "" {
 		repo = "/repo"
 	}
-	return &raceLog{path: fmt.Sprintf("%s.%d", prefix, os.Getpid()), repo: repo, src: map[string][]string{}}
+	return &Log{path: fmt.Sprintf("%s.%d", prefix, os.Getpid()), repo: repo, src: map[string][]string{}}
 }
 
-type raceReport struct {
-	text   string
+type Report struct {
+	Text   string
 	stacks [][]frame // the two access stacks
-	rl     *raceLog
+	rl     *Log
 }
 
 type frame struct {
@@ -45,7 +44,7 @@ type frame struct {
 
 var frameFile = regexp.MustCompile(`^\s+(/\S+):(\d+)`)
 
-func (r *raceLog) drain() []raceReport {
+func (r *Log) Drain() []Report {
 	f, err := os.Open(r.path)
 	if err != nil {
 		return nil
@@ -59,12 +58,12 @@ func (r *raceLog) drain() []raceReport {
 	buf := make([]byte, st.Size()-r.off)
 	n, _ := f.Read(buf)
 	r.off += int64(n)
-	var out []raceReport
+	var out []Report
 	for _, chunk := range strings.Split(string(buf[:n]), "==================") {
 		if !strings.Contains(chunk, "WARNING: DATA RACE") {
 			continue
 		}
-		rep := raceReport{text: strings.TrimSpace(chunk), rl: r}
+		rep := Report{Text: strings.TrimSpace(chunk), rl: r}
 		// sections are separated by blank lines; the first two are the accesses
 		secs := strings.Split(strings.TrimSpace(chunk), "\n\n")
 		for _, sec := range secs {
@@ -98,7 +97,7 @@ func (r *raceLog) drain() []raceReport {
 	return out
 }
 
-func (r *raceLog) sourceLine(file string, line int) string {
+func (r *Log) sourceLine(file string, line int) string {
 	ls, ok := r.src[file]
 	if !ok {
 		b, err := os.ReadFile(file)
@@ -116,7 +115,7 @@ func (r *raceLog) sourceLine(file string, line int) string {
 // site returns the first frame of a stack that is neither Go runtime/stdlib nor
 // instrumentation shim; ok=false when that frame is not gorm code (harness,
 // scheduler, driver): such reports are not about gorm's own synchronisation.
-func (rep raceReport) site(st []frame) (string, bool) {
+func (rep Report) site(st []frame) (string, bool) {
 	goroot := runtime.GOROOT() + "/"
 	for _, f := range st {
 		if strings.HasPrefix(f.file, goroot) || strings.Contains(f.file, "/go/src/") || strings.Contains(f.file, "/lib/go-") || strings.Contains(f.file, "/verifshim/") || strings.HasSuffix(f.file, "verifshim.go") {
@@ -135,7 +134,7 @@ func (rep raceReport) site(st []frame) (string, bool) {
 }
 
 // pair is the normalised, unordered pair of the two racing gorm statements.
-func (rep raceReport) pair() (string, bool) {
+func (rep Report) Pair() (string, bool) {
 	if len(rep.stacks) < 2 {
 		return "", false
 	}
